@@ -49,8 +49,12 @@ func WalkNodes(root *html.Node, fnVisit func(*html.Node) bool, fnExit func(*html
 		return
 	}
 
-	for child := root.FirstChild; child != nil; child = child.NextSibling {
+	for child := root.FirstChild; child != nil; {
+		// The visitor may detach or replace the visited child, so the next
+		// sibling has to be remembered before the visit.
+		next := child.NextSibling
 		WalkNodes(child, fnVisit, fnExit)
+		child = next
 	}
 
 	if fnExit != nil {
